@@ -40,7 +40,8 @@ type engTarget struct {
 
 type engSource struct {
 	ID   int
-	Path int // path id
+	Path int            // path id
+	Dir  map[string]int // a source DIRECTORY: file name -> literal id of its content (nil for a plain file)
 }
 
 type engProject struct {
@@ -346,6 +347,7 @@ type engRun struct {
 	litOf     map[int]int // path id -> literal id currently in the file (0 = absent / generated)
 	self      string
 	allLabels map[string]int
+	dirStates map[string]int
 	dirty     bool
 	execPos   int
 	hookPos   int
